@@ -181,6 +181,15 @@ type liftExp struct {
 //   - core contract: no escaping panic, grammar, non-nil context, source subscribed once, released once.
 //
 // It returns the recorder (nil when the run could not be judged).
+// liftViolate files a lift violation; when the case is the second use of one operator value the difference is
+// also what C12 forbids (an operator value is a recipe: its uses do not influence each other).
+func liftViolate(e *Env, what, clause, msg string) {
+	e.Violate("C18", clause, msg)
+	if strings.Contains(what, "second use of the operator value") {
+		e.Violate("C12", "operator-value-reuse", msg)
+	}
+}
+
 func runLift[T, R any](c *liftCtx, lc liftCase[T, R]) *tRec[R] {
 	e := c.e
 	what := lc.name
@@ -252,12 +261,12 @@ func runLift[T, R any](c *liftCtx, lc liftCase[T, R]) *tRec[R] {
 	for i := 0; i < len(want) || i < len(rec.Events); i++ {
 		if i >= len(rec.Events) {
 			w := want[i]
-			e.Violate("C18", clause, fmt.Sprintf("%s: notification #%d missing: want %c for %s; got trace %s", what, i, w.k, itemDesc(w.item), rec.trace()))
+			liftViolate(e, what, clause, fmt.Sprintf("%s: notification #%d missing: want %c for %s; got trace %s", what, i, w.k, itemDesc(w.item), rec.trace()))
 			break
 		}
 		g := rec.Events[i]
 		if i >= len(want) {
-			e.Violate("C18", clause, fmt.Sprintf("%s: unexpected extra notification #%d (%c); got trace %s", what, i, g.K, rec.trace()))
+			liftViolate(e, what, clause, fmt.Sprintf("%s: unexpected extra notification #%d (%c); got trace %s", what, i, g.K, rec.trace()))
 			break
 		}
 		w := want[i]
@@ -269,15 +278,15 @@ func runLift[T, R any](c *liftCtx, lc liftCase[T, R]) *tRec[R] {
 			if w.k == 'E' {
 				detail += fmt.Sprintf(" (the wrapped function returns error %q)", w.err)
 			}
-			e.Violate("C18", clause, fmt.Sprintf("%s: notification #%d is %c%s, want %c for %s", what, i, g.K, detail, w.k, itemDesc(w.item)))
+			liftViolate(e, what, clause, fmt.Sprintf("%s: notification #%d is %c%s, want %c for %s", what, i, g.K, detail, w.k, itemDesc(w.item)))
 			break
 		}
 		if w.k == 'N' && lc.ref != nil && g.Snap != w.snap {
-			e.Violate("C18", clause, fmt.Sprintf("%s: %s: emitted %s, the wrapped function returns %s", what, itemDesc(w.item), c18Trunc(g.Snap, 100), c18Trunc(w.snap, 100)))
+			liftViolate(e, what, clause, fmt.Sprintf("%s: %s: emitted %s, the wrapped function returns %s", what, itemDesc(w.item), c18Trunc(g.Snap, 100), c18Trunc(w.snap, 100)))
 			break
 		}
 		if w.k == 'E' && !errMatches(g.Err, w.err) {
-			e.Violate("C18", clause, fmt.Sprintf("%s: %s: Error notification carries %q (%T), want %q (%T)", what, itemDesc(w.item), g.Err, g.Err, w.err, w.err))
+			liftViolate(e, what, clause, fmt.Sprintf("%s: %s: Error notification carries %q (%T), want %q (%T)", what, itemDesc(w.item), g.Err, g.Err, w.err, w.err))
 			break
 		}
 	}
@@ -947,22 +956,30 @@ func init() {
 	regLift("template.TextTemplate", []int{len(c18Tpls)}, func(c *liftCtx) {
 		src := c18Tpls[c.p[0]]
 		ref := texttemplate.Must(texttemplate.New(src).Parse(src))
-		liftMapErr(c, fmt.Sprintf("rotemplate.TextTemplate(%q)", src), genItems(c, genTpl), rotemplate.TextTemplate[c18Tpl](src),
-			func(v c18Tpl) (string, error) {
-				var buf bytes.Buffer
-				err := ref.Execute(&buf, v)
-				return buf.String(), err
-			}, snapAny[c18Tpl], snapStr)
+		// one operator value, used twice: whatever the first use left behind (it may have ended with a template
+		// that failed after writing part of its output) must not show in the second
+		op := rotemplate.TextTemplate[c18Tpl](src)
+		for _, use := range []string{"", ", second use of the operator value"} {
+			liftMapErr(c, fmt.Sprintf("rotemplate.TextTemplate(%q)%s", src, use), genItems(c, genTpl), op,
+				func(v c18Tpl) (string, error) {
+					var buf bytes.Buffer
+					err := ref.Execute(&buf, v)
+					return buf.String(), err
+				}, snapAny[c18Tpl], snapStr)
+		}
 	})
 	regLift("template.HTMLTemplate", []int{len(c18Tpls)}, func(c *liftCtx) {
 		src := c18Tpls[c.p[0]]
 		ref := htmltemplate.Must(htmltemplate.New(src).Parse(src))
-		liftMapErr(c, fmt.Sprintf("rotemplate.HTMLTemplate(%q)", src), genItems(c, genTpl), rotemplate.HTMLTemplate[c18Tpl](src),
-			func(v c18Tpl) (string, error) {
-				var buf bytes.Buffer
-				err := ref.Execute(&buf, v)
-				return buf.String(), err
-			}, snapAny[c18Tpl], snapStr)
+		op := rotemplate.HTMLTemplate[c18Tpl](src)
+		for _, use := range []string{"", ", second use of the operator value"} {
+			liftMapErr(c, fmt.Sprintf("rotemplate.HTMLTemplate(%q)%s", src, use), genItems(c, genTpl), op,
+				func(v c18Tpl) (string, error) {
+					var buf bytes.Buffer
+					err := ref.Execute(&buf, v)
+					return buf.String(), err
+				}, snapAny[c18Tpl], snapStr)
+		}
 	})
 }
 
@@ -1388,3 +1405,29 @@ var _ = func() int {
 	gobBytes("")
 	return 0
 }()
+
+// C12.plugin — the plugin operators whose values are used twice by their lift case (the template renderers):
+// run by C18.lift's executor, a difference between the two uses is filed under C12.
+func init() {
+	Register(&Family{
+		Name:   "C12.plugin",
+		Props:  []string{"C12"},
+		Weight: 1,
+		Gen: func(g *Gen) *Scn {
+			sc := families["C18.lift"].Gen(g)
+			sc.Family = "C12.plugin"
+			op := liftOps[g.Pick("template.TextTemplate", "template.HTMLTemplate")]
+			sc.Sub = op.Name
+			sc.Ints = map[string]int{}
+			sc.SetInt("iseed", g.Intn(1<<30))
+			sc.SetInt("lo", 0)
+			sc.SetInt("n", op.Ns[g.Intn(len(op.Ns))])
+			sc.SetInt("end", op.Ends[g.Intn(len(op.Ends))])
+			for i, card := range op.P {
+				sc.SetInt(fmt.Sprintf("p%d", i), g.Intn(card))
+			}
+			return sc
+		},
+		Run: func(e *Env) { families["C18.lift"].Run(e) },
+	})
+}
